@@ -50,6 +50,18 @@ func (ex *Exec) syncOf(p PtrV) *syncState {
 }
 
 func (ex *Exec) noteAccess(p PtrV, write bool) {
+	// verifRacePoints: every access (one scheduling point per instruction) to a
+	// designated object is a place where another goroutine may run, so unlocked
+	// read-modify-write sequences on it can be torn
+	if len(ex.raceObjs) > 0 && len(ex.threads) > 1 && ex.cur != nil && !ex.inHarnessFrame() {
+		for _, o := range ex.raceObjs {
+			if o == p.obj && (ex.raceStep != ex.steps || ex.raceThread != ex.cur.id) {
+				ex.raceStep, ex.raceThread = ex.steps, ex.cur.id
+				ex.schedPoint("mem")
+				break
+			}
+		}
+	}
 	if len(ex.guards) == 0 {
 		return
 	}
@@ -274,6 +286,11 @@ func init() {
 		ex.autoTime = ex.boolConst(a[0])
 		return nil
 	}
+	// verifRacePoints(b): accesses to b's backing array become scheduling points
+	harnessAPI["verifRacePoints"] = func(ex *Exec, fn *ssa.Function, a []Value) Value {
+		ex.raceObjs = append(ex.raceObjs, a[0].(SliceV).arr)
+		return nil
+	}
 	harnessAPI["verifGuardedBy"] = func(ex *Exec, fn *ssa.Function, a []Value) Value {
 		d := a[0].(IfaceV).val.(PtrV)
 		m := a[1].(IfaceV).val.(PtrV)
@@ -306,6 +323,10 @@ func init() {
 	}
 	harnessAPI["verifThorough"] =func(ex *Exec, fn *ssa.Function, a []Value) Value {
 		return ex.tt.Bool(ex.eng.tier == "thorough")
+	}
+	// verifWriters(type, field) string : functions of this package that write the field (from the SSA of the current tree)
+	harnessAPI["verifWriters"] = func(ex *Exec, fn *ssa.Function, a []Value) Value {
+		return concStr(ex.eng.fieldWriters(fn.Pkg, ex.strArg(a[0]), ex.strArg(a[1])))
 	}
 	harnessAPI["verifIsSymbolic"] = func(ex *Exec, fn *ssa.Function, a []Value) Value {
 		return ex.tt.Bool(true)
